@@ -263,12 +263,32 @@ LEMMAS = [
     dict(
         name="fm_ext",              # the breadth-first step depends only on the entries of the list (two lists that agree give the same successors)
         params={"acc": "arr2", "b1": "arr", "s1": "int", "b2": "arr", "s2": "int", "n": "int"},
-        requires={"n": "n >= 0", "agree": "forall(lambda q: b1[s1 + q] == b2[s2 + q], 0, n)"},
+        # absolute index j into b1 (the trigger b1[j] carries no arithmetic)
+        requires={"n": "n >= 0", "agree": "forall(lambda j: b1[j] == b2[s2 + (j - s1)], s1, s1 + n)"},
         ensures={"same-count": "rfmn(acc, b1, s1, n) == rfmn(acc, b2, s2, n)",
                  "same-entries": "forall(lambda p: rfm(acc, b1, s1, n, p) == rfm(acc, b2, s2, n, p), 0, rfmn(acc, b1, s1, n))"},
         proof="h = 0\nwhile h < n:\n    h += 1",
         loops={1: dict(invariant={"range": "0 <= h <= n", "same-count": "rfmn(acc, b1, s1, h) == rfmn(acc, b2, s2, h)",
                                   "same-entries": "forall(lambda p: rfm(acc, b1, s1, h, p) == rfm(acc, b2, s2, h, p), 0, rfmn(acc, b1, s1, h))"},
                        variant="n - h")},
+    ),
+    dict(
+        name="cnt_split",           # a count over [lo, hi) is the count over [lo, mid) plus the count over [mid, hi)
+        params={"a": "arr", "d": "int", "lo": "int", "mid": "int", "hi": "int", "x": "int"},
+        requires={"order": "lo <= mid and mid <= hi"},
+        ensures={"split": "rcnt(a, d, lo, hi, x) == rcnt(a, d, lo, mid, x) + rcnt(a, d, mid, hi, x)"},
+        proof="h = mid\nwhile h < hi:\n    h += 1",
+        loops={1: dict(invariant={"range": "mid <= h <= hi", "split": "rcnt(a, d, lo, h, x) == rcnt(a, d, lo, mid, x) + rcnt(a, d, mid, h, x)"}, variant="hi - h")},
+    ),
+    dict(
+        name="cnt_revcomp",         # t = reverse complement of s (both of length n): x counted in t[lo, lo+m) = comp(x) counted in the mirrored range of s
+        params={"t": "arr", "ts": "int", "s": "arr", "ss": "int", "n": "int", "lo": "int", "m": "int", "x": "int"},
+        requires={"range": "0 <= lo and 0 <= m and lo + m <= n",
+                  "mirror": "forall(lambda j: t[j] == compc(s[ss + n - 1 - (j - ts)]), ts, ts + n)",
+                  "letter": "x == 65 or x == 67 or x == 71 or x == 84"},
+        ensures={"mirrored-count": "rcnt(t, 0, ts + lo, ts + lo + m, x) == rcnt(s, 0, ss + n - lo - m, ss + n - lo, compc(x))"},
+        proof="h = 0\nwhile h < m:\n    cnt_split(s, 0, ss + n - lo - h - 1, ss + n - lo - h, ss + n - lo, compc(x))\n    h += 1",
+        loops={1: dict(invariant={"range": "0 <= h <= m",
+                                  "mirrored-so-far": "rcnt(t, 0, ts + lo, ts + lo + h, x) == rcnt(s, 0, ss + n - lo - h, ss + n - lo, compc(x))"}, variant="m - h")},
     ),
 ]
